@@ -149,6 +149,10 @@ def run_countries(shard, mon, S):
             c2, code = urng.choice(keys)
             observe(S.BIC.from_bank_code, c2, code)
             observe(S.BIC.candidates_from_bank_code, c2, code)
+            # generation with a bank code exactly as the registry lists it, with and without other components
+            observe(S.IBAN.generate, c2, code, "1234567")
+            observe(S.IBAN.generate, c2, code, "1", "1")
+            observe(S.BBAN.from_components, c2, bank_code=code, account_code="7")
         eff2 = {k: {kk: vv for kk, vv in v.items() if kk != "regex"} for k, v in registry.get("iban").items()}
         if eff2 != table:
             mon.viol("effective_country_table_differs_from_files_after_use", {}, "R-DATA merge", "library view differs")
@@ -166,6 +170,9 @@ def run_banks(shard, mon, S):
     idx = lookup.by_key()
     part, parts = shard["part"], shard["parts"]
     nfill = FILLERS[shard["tier"]]
+    same_len: dict = {}
+    for c_, sp_ in sorted(table.items()):
+        same_len.setdefault(sp_["bban_length"], []).append(c_)
     for i in range(part, len(banks), parts):
         e = banks[i]
         mon.ev()
@@ -219,6 +226,23 @@ def run_banks(shard, mon, S):
                 mon.viol("bank_found_is_not_first_entry", {**w, "iban": t}, first, bank)
                 break
             mon.tally("reachable")
+            if f == 0 and i % 6 == 0:
+                # the same BBAN text under another country must find *that* country's bank (or none)
+                bb = t[4:]
+                for other in same_len.get(len(bb), []):
+                    if other == cc or not R.matches_spec(table[other]["bban_spec"], bb):
+                        continue
+                    opos = data.positions(table[other])
+                    ocomps = data.lookup_components(table[other])
+                    if not all(c in opos for c in ocomps):
+                        continue
+                    okey = "".join(bb[opos[c][0] : opos[c][1]] for c in ocomps)
+                    oent = idx.get((other, okey))
+                    oo = observe(lambda: S.IBAN(R.make_iban(other, bb)).bank)
+                    if not oo.ok or oo.value != (oent[0] if oent else None):
+                        mon.viol("listed_bank_shadowed_by_same_text_of_other_country", {**w, "iban": R.make_iban(other, bb), "looked_up_before": t}, oent[0] if oent else None, oo.brief())
+                    mon.tally("cross_country_probes")
+                    break
     mon.sample({"entry": banks[part] if part < len(banks) else None})
 
 
